@@ -73,9 +73,52 @@ def rot_array(q, sigma=1):
     return out
 
 
+def nf_key(M):
+    """content key of the *normal forms* of the entries (polynomials modulo the unit hypotheses):
+    equal polynomials give equal keys however the terms were built"""
+    from . import polyred
+    c = ctx()
+    if not polyred.active(c):
+        return None
+    try:
+        rw = polyred.Rewriter(c)
+        out = []
+        for i in range(3):
+            for j in range(3):
+                x = M[i, j]
+                if isinstance(x, SymReal):
+                    t = rw.rw(x.z)
+                    if z3.is_rational_value(t):
+                        f = mk(t)
+                        out.append(("c", f))
+                    else:
+                        out.append(("z", t.get_id()))
+                else:
+                    out.append(("c", x))
+        return tuple(out)
+    except polyred.NotPolynomial:
+        return None
+
+
 def register(M, q, sigma=1):
-    _reg()[block_key(M)] = Rot(q, sigma)
+    r = Rot(q, sigma)
+    _reg()[block_key(M)] = r
+    k = nf_key(M)
+    if k is not None:
+        ctx().memo.setdefault("rotreg_nf", {})[k] = r
     return M
+
+
+def _ensure_inputs_registered():
+    """R(q) of every declared unit quaternion is registered (lazily), so that blocks built by
+    evo's own quaternion_matrix are recognised by their normal form"""
+    from . import polyred
+    c = ctx()
+    done = c.memo.setdefault("rotreg_inputs", set())
+    for w, (xyz, q) in list(polyred.unit_hyps_of(c).lead.items()):
+        if w not in done:
+            done.add(w)
+            new_rotation(list(q))
 
 
 def new_rotation(q, sigma=1):
@@ -99,6 +142,21 @@ def lookup(M):
         rt = Rot(quat_conj(r.q), r.sigma)
         reg[block_key(M)] = rt
         return rt
+    if any(isinstance(M[i, j], SymReal) for i in range(3) for j in range(3)):
+        _ensure_inputs_registered()
+        nfreg = ctx().memo.get("rotreg_nf", {})
+        if nfreg:
+            k = nf_key(M)
+            r = nfreg.get(k) if k is not None else None
+            if r is not None:
+                reg[block_key(M)] = r
+                return r
+            kt = nf_key(M.T)
+            r = nfreg.get(kt) if kt is not None else None
+            if r is not None:
+                rt = Rot(quat_conj(r.q), r.sigma)
+                reg[block_key(M)] = rt
+                return rt
     # identity / signed permutation-free diagonal matrices
     if all(not isinstance(M[i, j], SymReal) for i in range(3) for j in range(3)):
         d = [M[i, i] for i in range(3)]
